@@ -54,7 +54,10 @@ def parseParam (j : Json) : Except String Param := do
   let named := match j.getObjVal? "named" with
     | .ok (.bool b) => b
     | _ => true
-  return ⟨parseName n, u, k, named⟩
+  let registered := match j.getObjVal? "registered" with
+    | .ok (.bool b) => b
+    | _ => true
+  return ⟨parseName n, u, k, named, registered⟩
 
 def parseParams (j : Json) (k : String) : Except String (List Param) := do
   let a ← getArr j k
